@@ -177,6 +177,15 @@ fn main() {
                     // explain
                     let ja = judge_call(&cfg, s, c.epoch, &c.dets, &c.recs, &c.pre);
                     let jb = judge_call(&cfg, s, c.epoch, &c.dets, &recs_solo, &pre_solo);
+                    // both outcomes may be valid for their OWN pre-call states and still betray interference: up to this call
+                    // the two runs agreed record by record, so the scene's unexpired tracks must be the same in both stores
+                    let live_of = |pre: &[LiveTrack], epoch: usize| pre.iter().filter(|t| t.scene == s && epoch <= t.last_epoch + cfg.max_idle).count();
+                    let (li, ls) = (live_of(&c.pre, c.epoch), live_of(&pre_solo, c.epoch));
+                    if li != ls {
+                        rep.violation(&format!("C04/{:?}/grouping-differs/unexpired-tracks-of-the-scene-differ-before-the-call", kind), idx, json!({"cfg": cfg.js(), "scene": s, "call_of_scene": k, "epoch": c.epoch,
+                            "unexpired_tracks_in_interleaved_run": li, "unexpired_tracks_in_single_scene_run": ls}));
+                        break;
+                    }
                     match (ja, jb) {
                         (Judgement::Invalid(sig, d), _) => rep.violation(&format!("C04/{:?}/grouping-differs/interleaved-outcome-invalid/{}", kind, sig), idx, json!({"cfg": cfg.js(), "scene": s, "call_of_scene": k, "detail": d})),
                         (_, Judgement::Invalid(sig, d)) => rep.violation(&format!("C04/{:?}/grouping-differs/single-scene-outcome-invalid/{}", kind, sig), idx, json!({"cfg": cfg.js(), "scene": s, "call_of_scene": k, "detail": d})),
